@@ -50,7 +50,7 @@ ENCODINGS = ['utf-8', 'utf-8-sig', 'utf-16', 'utf-16-le', 'utf-16-be', 'utf-32',
 ASCII_COMPAT = {'utf-8', 'latin-1', 'cp1252', 'iso-8859-15', 'koi8-r', 'cp1251', 'shift_jis', 'euc-jp', 'gb2312', 'big5', 'ascii'}
 BOM_ENCS = {'utf-8-sig': 'utf-8', 'utf-16': 'utf-16', 'utf-32': 'utf-32'}
 TEXTS = [
-    '', 'a', 'a{b:c}', 'é', '\U0001f600x', 'a{content:"Жя"}', '中文{}', '@', '@c', '@charset', '@charset ', '@charset "',
+    '', 'a', 'a{b:c}', 'é', 'Ā{}', '一a', '\u0100', '\U0001f600x', 'a{content:"Жя"}', '中文{}', '@', '@c', '@charset', '@charset ', '@charset "',
     '@charset "x', '@charset "x"', '@charset "x";', '@charset "utf-8";a{}', '@charset "latin-1";é{}', '@charset "koi8-r";Ж{}',
     '@charset "";a', ' @charset "x";a', '@charset \'x\';a', '@CHARSET "x";a', '@charset  "x";a', '@charset "x" ;a', '/**/@charset "x";',
     '@charset "utf-16";b{}', '@charset "UTF-8";a{x:"€"}', '@charsetx', 'a@charset "x";', '@charset "x";@charset "y";', '@charset "shift_jis";テ{}',
@@ -102,8 +102,14 @@ def check_detect_bytes(ctx, c, b):
         a = answers(b)
         if a != {rn[0]}:
             ctx.violation('detect.monotone', case, {'got_nonfinal': rn, 'answers_over_extensions': sorted(a)})
-    elif rn[1]:
-        ctx.violation('detect.monotone', case, {'got_nonfinal': rn, 'what': 'unknown yet but flagged explicit'})
+    else:
+        if rn[1]:
+            ctx.violation('detect.monotone', case, {'got_nonfinal': rn, 'what': 'unknown yet but flagged explicit'})
+        # 'unknown yet' is only an answer while the data is insufficient: once four bytes are there and no
+        # charset rule can follow, every continuation leads to the same encoding and the detector must say so
+        ctx.count('oracle.detect.decisive')
+        if len(b) >= 4 and not b.startswith(b'@cha') and len(answers(b)) == 1:
+            ctx.violation('detect.decisive', case, {'got_nonfinal': rn, 'only_possible_answer': sorted(answers(b))})
     if len(b) >= 2:
         ctx.seen(b'D' + b)
 
